@@ -54,7 +54,8 @@ EXPECTED_PROBES = ["alloc_fault_fired", "retry_after_alloc_error", "batch_size_1
                    "nonunit_calibration", "integer_origin_outside_detector", "origin_given_noncontiguous",
                    "shift_mode_nearest", "shift_mode_bicubic", "planted_plane_explicit_positions",
                    "detector_mask_bool", "detector_mask_float", "detector_mask_int", "detector_mask_hole",
-                   "forward_workflow", "forward_with_explicit_positions", "batch_size_numpy_int"]
+                   "forward_workflow", "forward_with_explicit_positions", "batch_size_numpy_int",
+                   "raster_fit_parabola", "raster_fit_no_shift", "fit_origin_parabola_on_plane"]
 
 _ctx = {}
 
@@ -152,7 +153,8 @@ def gen(rng: Rng, tier, i):
             # detector mask for the dataset model's centre of mass (None / bool / float weights / int)
             "dp_mask": rng.fork("dpmask").pick([None, None, "bool", "float", "int", "hole"]),
             "mask_seed": rng.randrange(10 ** 6),
-            "raster": rng.chance(0.35), "raster_fit": rng.pick(["constant", "plane", "none"])}
+            "raster": rng.chance(0.35),
+            "raster_fit": rng.pick(["constant", "plane", "none", "parabola", "no_shift"])}
 
 
 def _data(plan):
@@ -369,6 +371,29 @@ def run(plan):
                     if not err <= 1e-4:
                         viol("planted_surface_not_recovered", f"{tag}: fit_origin(plane) deviates "
                              f"{err:.3g}", "planted_surface:fit_origin:plane")
+                    # the caller's arrays are inputs: no fit function may change them; an exact surface
+                    # of the family (here a plane, which every higher-order family contains) comes back
+                    for ff in ("plane", "constant", "parabola"):
+                        if ff == "parabola" and (n < 7 or min(sx, sy) < 3):
+                            continue      # x**2 == x on a side of length 2: the family is degenerate
+                        d0 = (planes[0].astype(float).copy(), planes[1].astype(float).copy())
+                        keep0 = (d0[0].copy(), d0[1].copy())
+                        try:
+                            fr2, fc2, _, _ = _ctx["fit_origin"](data=d0, fit_function=ff,
+                                                               mask=np.ones((sx, sy), dtype=bool))
+                        except Exception as e:
+                            viol("op_raised", f"{tag}: fit_origin({ff}) raised {e!r}",
+                                 f"op_raised:fit_origin:{ff}")
+                            continue
+                        if not (np.array_equal(d0[0], keep0[0]) and np.array_equal(d0[1], keep0[1])):
+                            viol("input_mutated", f"{tag}: fit_origin(fit_function={ff!r}) modified the "
+                                 "caller's data arrays", f"input_mutated:fit_origin:{ff}")
+                        if ff == "parabola":
+                            bump(probes, "fit_origin_parabola_on_plane")
+                            e2 = max(np.abs(fr2 - planes[0]).max(), np.abs(fc2 - planes[1]).max())
+                            if not e2 <= 1e-4:
+                                viol("planted_surface_not_recovered", f"{tag}: fit_origin(parabola) on an "
+                                     f"exact plane deviates {e2:.3g}", "planted_surface:fit_origin:parabola")
                     fr, fc, _, _ = _ctx["fit_origin"](
                         data=(np.full((sx, sy), op["coef"][0][2]), np.full((sx, sy), op["coef"][1][2])),
                         fit_function="constant")
@@ -531,6 +556,11 @@ def run(plan):
 
     # ---- the ptychography dataset model, vectorised and looped, on the same data
     if plan.get("raster"):
+        rfit = plan["raster_fit"]
+        if rfit == "parabola" and (n < 7 or min(sx, sy) < 3):
+            rfit = "plane"           # six coefficients need more than six patterns and sides >= 3
+        if rfit in ("parabola", "no_shift"):
+            bump(probes, "raster_fit_" + rfit)
         for vec in (True, False):
             bump(probes, "vectorised_path" if vec else "looped_path")
             src = a.copy()
@@ -538,7 +568,7 @@ def run(plan):
                 d = _ctx["D4"].from_array(src, sampling=(1.0, 1.0, 0.05, 0.05),
                                           units=("A", "A", "A^-1", "A^-1"))
                 pd = _ctx["Raster"].from_dataset4dstem(d, verbose=0)
-                pd.preprocess(com_fit_function=plan["raster_fit"], plot_rotation=False, plot_com=False,
+                pd.preprocess(com_fit_function=rfit, plot_rotation=False, plot_com=False,
                               probe_energy=300e3, force_com_rotation=0, force_com_transpose=False,
                               vectorized=vec)
                 cm = np.asarray(pd.com_measured, dtype=np.float64)
@@ -565,7 +595,7 @@ def run(plan):
                 am = a.astype(np.float64) * mk.astype(np.float64)
                 mr, mc = _ref_com(am)
                 try:
-                    pd._set_intensities_com(a4, dp_mask=mk, fit_function=plan["raster_fit"],
+                    pd._set_intensities_com(a4, dp_mask=mk, fit_function=rfit,
                                             vectorized_calculation=vec)
                     cm = np.asarray(pd.com_measured, dtype=np.float64)
                 except Exception as e:
